@@ -266,3 +266,11 @@ func Override(name string, fn any) {}
 // Execs returns the program paths passed to os/exec.Command on this path
 // (engine only).
 func Execs() []string { return nil }
+
+// Share marks every memory cell reachable from obj as shared between
+// goroutines (engine only); SharedWrites lists the writes to such cells that
+// happened afterwards. ShareGlobals does the same for every package-level
+// variable of the module.
+func Share(tag string, obj any) {}
+func ShareGlobals()             {}
+func SharedWrites() []string    { return nil }
